@@ -604,17 +604,38 @@ func (w *world) droppedSince(s *mempool.VerifSnapshot) []common.Hash {
 	return out
 }
 
-// slice is the part of the history that concerns one sender (its submissions, rivals and every commit).
+// slice is the minimal part of the history that explains the pool's view of one sender: its operations since the
+// last commit, the earlier submissions whose transactions are still pooled (or were dropped by the operation
+// being judged), and that last commit.
 func (w *world) slice(a common.Address) []opRec {
 	who := w.who(a)
+	lastCommit := -1
+	for _, r := range w.hist {
+		if r.Op == "commit" {
+			lastCommit = r.I
+		}
+	}
+	live := map[string]bool{}
+	for _, h := range w.order {
+		if t := w.tracked[h]; t != nil && t.Loc != "" && t.Loc != "committed" {
+			live[short(h)] = true
+		}
+	}
+	for _, h := range w.droppedNow {
+		live[short(h)] = true
+	}
 	var out []opRec
 	for _, r := range w.hist {
-		if r.From == who || r.Op == "commit" {
+		switch {
+		case r.I == lastCommit:
+			out = append(out, r)
+		case r.From != who:
+		case r.I > lastCommit || (r.Res == "ok" && live[r.Tx]):
 			out = append(out, r)
 		}
 	}
-	if len(out) > 80 {
-		out = out[len(out)-80:]
+	if len(out) > 60 {
+		out = out[len(out)-60:]
 	}
 	return out
 }
